@@ -241,7 +241,88 @@ def _flatten(v):
     return v
 
 
+def check_text_chars(case):
+    """Every character of a range offered as a one-character str: either refused, or encoded and decoded back to the same character."""
+    code = case["code"]
+    cls = ce.VCLASS[code]
+    out = []
+    n = 0
+    for cp in range(case["lo"], case["hi"]):
+        ch = chr(cp)
+        try:
+            obj = cls(ch)
+        except Exception:  # noqa: BLE001
+            continue
+        n += 1
+        try:
+            raw = obj.encode()
+            back = cls()
+            back.decode(raw)
+            got = back.get()
+        except Exception as exc:  # noqa: BLE001
+            out.append((f"C01|accepted-text-character-does-not-decode|{code}", {"case": case, "char": hex(cp), "error": repr(exc)}))
+            continue
+        if got != ch:
+            out.append((f"C01|accepted-text-character-does-not-round-trip|{code}", {"case": case, "char": hex(cp), "got": repr(got), "bytes": raw.hex()}))
+    return {"v": out, "nt": True, "cnt": {"characters_accepted": n}}
+
+
+def check_refused_update(case):
+    """A value that is refused (too long for a limited item, out of range, wrong type) leaves the object as it was: same get(), same bytes."""
+    import secsgem.secs.data_items as DI  # noqa: PLC0415,N812
+
+    out = []
+    kind = case["target"]
+    if kind == "MDLN":
+        obj, good, bads = DI.MDLN("OK"), e5.enc(("A", b"OK")), ["MUCH TOO LONG FOR TWENTY CHARACTERS", 5.5]
+    elif kind == "String[4]":
+        obj, good, bads = ce.VCLASS["A"]("abcd", count=4), e5.enc(("A", b"abcd")), ["abcde", "x" * 300]
+    elif kind == "Binary[2]":
+        obj, good, bads = ce.VCLASS["B"](b"\x01\x02", count=2), e5.enc(("B", b"\x01\x02")), [b"\x01\x02\x03", "text"]
+    elif kind == "U1":
+        obj, good, bads = ce.VCLASS["U1"]([1, 2]), e5.enc(("U1", [1, 2])), [[1, 256], [-1], "x"]
+    elif kind == "I2[2]":
+        obj, good, bads = ce.VCLASS["I2"]([1, -2], count=2), e5.enc(("I2", [1, -2])), [[1, 2, 3], [40000]]
+    else:
+        raise ValueError(kind)
+    before = obj.get()
+    for bad in bads:
+        for how in ("set", "decode"):
+            try:
+                if how == "set":
+                    obj.set(bad)
+                else:
+                    raw = None
+                    if isinstance(bad, str):
+                        raw = e5.enc(("A", bad.encode("latin-1")))
+                    elif isinstance(bad, bytes):
+                        raw = e5.enc(("B", bad))
+                    elif isinstance(bad, list) and all(isinstance(x, int) for x in bad) and kind == "I2[2]" and all(-32768 <= x <= 32767 for x in bad):
+                        raw = e5.enc(("I2", bad))
+                    if raw is None:
+                        continue
+                    obj.decode(raw)
+                refused = False
+            except Exception:  # noqa: BLE001
+                refused = True
+            if not refused:
+                continue  # accepted: not this case's business (over-long values are observed elsewhere)
+            try:
+                now, raw_now = obj.get(), obj.encode()
+            except Exception as exc:  # noqa: BLE001
+                out.append((f"C01|object-unusable-after-a-refused-{how}|{kind}", {"case": case, "error": repr(exc)}))
+                continue
+            if now != before or raw_now != good:
+                out.append((f"C01|refused-{how}-changes-the-object|{kind}", {"case": case, "bad": repr(bad)[:40], "get": repr(now)[:60], "bytes": raw_now.hex()[:80],
+                                                                            "want_bytes": good.hex()}))
+    return {"v": out, "nt": True}
+
+
 def check_case(case):
+    if case["kind"] == "chars":
+        return check_text_chars(case)
+    if case["kind"] == "refused":
+        return check_refused_update(case)
     kind = case["kind"]
     if kind == "leaf":
         return check_leaf(case)
@@ -326,6 +407,13 @@ def cases(ctx):
         for _ in range(depth):
             t = {"code": "L", "items": [t]}
         yield {"kind": "tree", "desc": t}
+    # 4b. every character U+0000..U+02FF, the halfwidth katakana block and the yen / overline signs as one-character str for A and J
+    for code in ("A", "J"):
+        for lo, hi in ((0, 0x300), (0xFF61, 0xFFA0), (0x203E, 0x203F), (0xA5, 0xA6)):
+            yield {"kind": "chars", "code": code, "lo": lo, "hi": hi}
+    # 4c. refused updates leave the object unchanged
+    for target in ("MDLN", "String[4]", "Binary[2]", "U1", "I2[2]"):
+        yield {"kind": "refused", "target": target}
     # 5. keyed records
     for rec in RECORDS[:3]:
         yield {"kind": "record", "name": rec[0]}
